@@ -28,21 +28,6 @@ from delphin import mrs as _mrs  # noqa: E402
 from delphin import sembase, util  # noqa: E402
 from delphin.mrs import _operations  # noqa: E402
 
-# id of the finding "verdict depends on the order of predications sharing an intrinsic variable";
-# the class is generated only once the coordinator has listed it in known_findings.json
-SHARED_IV_FINDING = "F31"
-
-
-def _known_ids():
-    fn = os.path.join(paths.VERIF, "known_findings.json")
-    try:
-        with open(fn, encoding="utf-8") as f:
-            return {x.get("id") for x in json.load(f).get("findings", [])
-                    if x.get("property") == "C06" and x.get("status") == "known"}
-    except Exception:
-        return set()
-
-
 # ---------------------------------------------------------------- small helpers on MRS JSON
 
 def tv(v):
@@ -751,12 +736,19 @@ class C06(Check):
     assumptions = [
         "input space: every non-quantifier predication has its own intrinsic variable (at most one predication "
         "without ARG0), no parallel constraints; ASCII names, no whitespace inside role names",
+        "outside the input space (coordinator's decision), kept as correspondence-only corpus cases: predications "
+        "sharing an intrinsic variable or two predications without ARG0 (the verdict then depends on the order of "
+        "the predications: the first one owns the graph node); role names starting with '--' (the inverse-edge "
+        "marker; cleanGraph is the stated hypothesis of the soundness theorems)",
         "the iterative stack machine of util._vf2 is modelled by the recursion it implements; tied to the code by "
         "comparing the returned mapping (not only the verdict) on every generated pair",
         "soundness theorem assumes edge labels that cannot be confused with the '--' inverse marker "
         "(checked by the driver on every case: always true for generated structures)",
-        "completeness (no false negatives), reflexivity, symmetry and invariance under renaming/reordering are "
-        "decided by the direct oracle (exhaustive bijection search up to 7 predications), not proved",
+        "proved for the model: soundness, completeness, exactness w.r.t. isomorphism of the encoding graphs, "
+        "reflexive/symmetric/transitive, never raises; NOT proved (direct oracle only): that renaming variables / "
+        "reordering predications of an MRS yields an isomorphic encoding graph, that isomorphic MRSs pass the four "
+        "size pre-checks, and the reading of a graph isomorphism as an MRS isomorphism (exhaustive bijection search "
+        "on the MRS objects up to 7 predications)",
     ]
     trusted_base = ["hand-written model lean/Verif/C06/Model.lean, tied to delphin.util._vf2* and "
                     "delphin.mrs._operations by the correspondence run (graph, augmented graph, mapping, verdict)",
@@ -790,7 +782,6 @@ class C06(Check):
             yield mk("mutant:" + what, m, rename_shuffle(rng, mu), props if what not in ("prop", "propadd", "propcase") else rng.random() < 0.8)
 
     def cases(self, rng, tier, n):
-        known = _known_ids()
         # deterministic part: all small structures against a renamed copy and against each other
         small = list(enum_small())
         step = 1 if tier == "thorough" else 7
@@ -815,10 +806,7 @@ class C06(Check):
             fam = rng.choice(FAMILIES if not big else ["random", "random1", "dense", "cycle", "cycle2", "star",
                                                         "copies", "mutual", "tree"])
             m = gen_family(rng, fam, big=big)
-            if SHARED_IV_FINDING in known and not big and rng.random() < 0.03:
-                m = gen_random(rng, rng.choice([2, 3]), shared_ivs=True)
-                fam = "sharediv"
-            elif not in_space(m):
+            if not in_space(m):
                 continue
             if big:
                 nbig += 1
@@ -921,7 +909,7 @@ class C06(Check):
             clean = answer.pop("clean", None)
             for k in ("g1", "a1"):
                 answer[k] = sorted([n, sorted(es, key=lambda p: (p[0] is not None, p[0] or ""))] for n, es in answer[k])
-            if clean is not True:
+            if clean is not True and case.get("oracle") != "skip":
                 return {"model": "side condition cleanGraph is false on a generated case", "answer": answer}
         return super().model_compare(case, expected, answer)
 
@@ -931,6 +919,9 @@ class C06(Check):
 
         def fail(clause, detail):
             fails.append({"clause": clause, "detail": detail})
+        if case.get("oracle") == "skip":
+            # structures OUTSIDE the property's input space, kept as correspondence-only cases
+            return fails
         if case["kind"] == "bags":
             return self.oracle_bags(case, res, fail) or fails
         if isinstance(res, dict) and "err" in res:
@@ -1022,13 +1013,7 @@ class C06(Check):
 
     # ---- findings
     def classify(self, case, failure):
-        """F31 (pending): verdict depends on the order of predications that share an intrinsic variable."""
-        if case.get("kind") != "pair":
-            return None
-        if shared_iv(case["m1"]) or shared_iv(case["m2"]):
-            cl = str(failure.get("clause", ""))
-            if cl.startswith("invariant:") or cl.startswith("a renamed") or "false negative" in cl:
-                return SHARED_IV_FINDING
+        """no known finding for C06 (F21, F24, F25 are repaired; their witnesses are corpus regressions)"""
         return None
 
     # ---- statistics
